@@ -1105,3 +1105,74 @@ example : visAcc exP 2 = [3, 0, 4, 2, 5] := by decide +kernel
 example : (colPost exP 0, colPost exP 1) = ([0, 4, 2, 5], [2, 5, 3]) := by decide +kernel
 
 end Slu.PanelDfs
+
+/-! ### `wfIn` on the states `[sdcz]gstrf` really hands to `column_dfs` (family `coldfsreal`, hook H3)
+
+Two clauses of `wfIn` were stronger than what the factorization guarantees; both were weakened (the theorems
+`colDfs_eq_recursive`, `colDfs_eq_dfsPost`, `colDfs_segrep_topo`, `colDfs_lsub_marked`, `colDfs_lsub_nodup` above
+quantify over `wfIn`, so their unchanged statements now cover these states).
+
+* pruned lists: the list of the LAST column `s` of a relaxed supernode (the duplicate copy `[sdcz]snode_dfs` writes)
+  holds all the supernode's rows, also those pivoted at its EARLIER columns.  `wfIn` now asks of a pivoted row of the
+  list of `s`: pivoted at `s` or beyond, or at a column whose representative is `s` itself (no edge of the graph; the
+  machine only runs `if (myfnz > chperm) repfnz[chrep] = chperm` because `repfnz[s]` is set while `s` is scanned).
+* `segrep`: on entry `segrep[0..nseg)` holds the segments of the whole PANEL, also those of other panel columns that
+  this column has not reached (`repfnz = EMPTY` here), so `nseg + jcol <= |segrep| + #visited` fails.  `wfIn` now asks:
+  `jcol <= |segrep|`, the entries are distinct columns below jcol, and an unreached one lies below the representative of
+  every pivoted nonzero of the column (it is below the panel's first column, the nonzero was pivoted inside the panel);
+  the search then never appends an entry a second time, so at most `jcol` entries are ever written. -/
+namespace Slu.ColDfs
+
+/-- the state captured in a real `dgstrf` run (shrunk): columns 0, 1 form a relaxed supernode (`xsup = [0, 2, …]`,
+`supno = [0, 0, …]`); the list of its last column 1, `lsub[4..8) = 0 2 4 1`, holds row 0, which was pivoted at column 0
+of the same supernode (`perm_r[0] = 0 < 1`).  Column 2 has the nonzeros 0 and 3. -/
+def exReal : Input :=
+  { m := 5, jcol := 2, maxsuper := 4,
+    perm_r := #[0, 1, -1, -1, -1], nseg := 0,
+    lsubCol := #[0, 3, -1, 7, 7],
+    segrep := #[-7, -7, -7, -7, -7],
+    repfnz := #[-1, -1, -1, -1, -1],
+    xprune := #[99999, 8, -7, -7, -7],
+    marker := #[1, 1, 1, -1, 1, -1, -1, -1, -1, -1, -1, -1, -1, -1, -1],
+    parent := #[4, 4, 4, 4, 4], xplore := #[9, 9, 9, 9, 9],
+    xsup := #[0, 2, -7, -7, -7], supno := #[0, 0, 0, -7, -7],
+    lsub := #[0, 2, 4, 1,  0, 2, 4, 1,  -5, -5, -5, -5],
+    xlsub := #[0, 4, 8, -7, -7, -7] }
+
+example : wfIn exReal = true := by decide +kernel
+/-- the clause `wfIn` had before (pivoted rows of the list of `s` pivot at `s` or beyond) fails on it -/
+example : (adjRows exReal.env exReal.lsub 1).all
+    (fun row => rd exReal.perm_r row = EMPTY || (1 : Int) ≤ rd exReal.perm_r row) = false := by decide +kernel
+/-- row 0 starts the search at representative 1, whose list is scanned without a descent (rows 0 and 1 only lower
+`repfnz[1]`), rows 2, 4 and then the second nonzero 3 are appended -/
+example : (columnDfs exReal (fuelBound exReal)).map
+    (fun o => (o.nseg, slice o.segrep 0 o.nseg, slice o.repfnz 0 2, slice o.lsub 8 11)) =
+    some (1, [1], [-1, 0], [2, 4, 3]) := by decide +kernel
+example := colDfs_segrep_topo exReal (by decide +kernel) (by decide +kernel)
+example := colDfs_lsub_nodup exReal (by decide +kernel)
+
+/-- second column (jcol = 3) of a panel that starts at column 2: `segrep[0..2) = 1 0` are the segments the panel search
+found for column 2; column 3 has reached neither (`repfnz` all EMPTY).  Its nonzero row 2 was pivoted inside the panel
+(at column 2).  `nseg + jcol = 5 > 4 = |segrep| + #visited`, yet nothing is written beyond `segrep[2]`. -/
+def exPanel : Input :=
+  { m := 4, jcol := 3, maxsuper := 4,
+    perm_r := #[0, 1, 2, -1], nseg := 2,
+    lsubCol := #[2, 3, -1, 7],
+    segrep := #[1, 0, -7, -7],
+    repfnz := #[-1, -1, -1, -1],
+    xprune := #[2, 4, 6, -7],
+    marker := #[0, 1, 2, 2, -1, -1, -1, -1, 2, 2, 2, 2],
+    parent := #[4, 4, 4, 4], xplore := #[9, 9, 9, 9],
+    xsup := #[0, 1, 2, 3, -7], supno := #[0, 1, 2, 2, -7],
+    lsub := #[0, 2,  1, 2,  2, 3,  -5, -5],
+    xlsub := #[0, 2, 4, 6, -7] }
+
+example : wfIn exPanel = true := by decide +kernel
+example : decide (exPanel.nseg + exPanel.jcol ≤ exPanel.segrep.size + (visited0 exPanel.jcol exPanel.repfnz).length) = false := by
+  decide +kernel
+example : (columnDfs exPanel (fuelBound exPanel)).map
+    (fun o => (o.nseg, slice o.segrep 0 o.nseg, slice o.repfnz 0 3, slice o.lsub 6 7)) =
+    some (3, [1, 0, 2], [-1, -1, 2], [3]) := by decide +kernel
+example := colDfs_eq_recursive exPanel (by decide +kernel)
+
+end Slu.ColDfs
